@@ -138,7 +138,7 @@ type Outcome struct {
 	Results   []Result // one per executed operation (up to and including a failing one)
 	CommitErr string   // commit-time rejection ("" = none)
 	CommitWhy string
-	Post      *DB // state after (== pre if anything failed)
+	Post      *DB    // state after (== pre if anything failed)
 	OutOfDom  string // non-empty: the reference needs a check the property excludes (constraints, overflow ...)
 	Names     map[string]string
 }
